@@ -1300,9 +1300,13 @@ def check_histories(ck, monitor, tied, model="group", module="Model.GroupObs"):
             ck.hist("honest-coordinator+sync-consumer-failure:" + ("settled" if verdict is None else "NOT settled"))
             if verdict is not None:
                 unsettled.append((kind, evs, verdict + "  [consumers failing inside start(): %r - not replayable from the event list alone]" % (final["sync_failed"],), final))
-        else:
+        else:            # no consumer was started in the fault window: an ordinary closed-loop run, judged and compared like the first batch
             histories.append((kind, evs, "honest-coordinator", final["salt"]))
+            ck.hist("honest-coordinator:" + ("settled" if verdict is None else "NOT settled"))
+            if verdict is not None:
+                unsettled.append((kind, evs, verdict, final))
     ck.cov["honest_coordinator_sync_failure_runs"] = nsync
+    ck.cov["honest_coordinator_runs_judged"] = 2 * (n_gen // 3)
     ck.cov["honest_coordinator_unsettled"] = len(unsettled)
     for kind, evs, verdict, final in unsettled[:2]:
         ck.violation({"kind": "monitor", "failures": [[len(evs) - 1, "C17_bounded_rejoin (honest coordinator, fair schedule): " + verdict]],
@@ -1404,7 +1408,12 @@ def check_histories(ck, monitor, tied, model="group", module="Model.GroupObs"):
     ck.cov["monitor_totals"] = totals
     ck.cov["rule"] = ("histories = hand-written corpus (one per theorem / repaired defect / residual finding) + state-aware seeded generator "
                       "(random.Random(VERIF_SEED): replies and failures of every class for every pending request, timers and heartbeat ticks in any order, "
-                      "stop()/start() at random points, consumer failures and slow/failed shutdowns, 10% late/duplicate/foreign events)"
+                      "stop()/start() at random points, consumer failures and slow/failed shutdowns, 10% late/duplicate/foreign events, a Consumer constructor raising) "
+                      "+ directed family: a join_and_sync call armed by X while a join is in flight, the join completes, later a retriable error Y, then every armed "
+                      "call fires (one history per (X, Y), 66) "
+                      "+ closed loop against an honest group coordinator (member table, generation counter, protocol error codes): a fault phase (evictions, rebalances, "
+                      "coordinator moves, time-outs, metadata failures, consumer commit errors; in half of the runs also consumers failing before start() returns - those "
+                      "are judged by the settle verdict only, not compared with the model), then a fair schedule that must settle within 80 steps"
                       + (" + every maximal sequence of implementation-enabled events up to depth 13 over a reduced alphabet" if thorough else "")
                       + ". A history is non-trivial if it has >= 4 events and schedules a call or fires the start Deferred; distinct = distinct case lines.")
     ck.cov["trusted_base"] += ["correspondence harness harness/props/group_lib.py + vlib.py", "extracted OCaml runner (ExtrOcamlBasic) cross-checked by vm_compute sample"]
